@@ -792,6 +792,15 @@ def _idmemo_rules(ctx: Ctx, rs: RuleSet):
     while isinstance(getattr(top, 'parent', None), FuncInfo):
       top = top.parent
     reason = IDMEMO_REASONS.get((top.qualname, s.table))
+    if reason is None and isinstance(top, FuncInfo):
+      # a closure lifted to module level: it belongs to the public function
+      # that hands it to the traversal
+      for owner_q, _ in IDMEMO_REASONS:
+        owner = ctx.p.funcs.get(owner_q)
+        cb = ctx.p.callback_of(owner) if owner is not None else None
+        if cb is not None and top.qualname in (
+            cb.qualname, getattr(getattr(cb, '_base', None), 'qualname', None)):
+          reason = IDMEMO_REASONS.get((owner_q, s.table))
     if reason is not None and held:
       rs.ok(rule, s.key, 'accepted: ' + reason, loc)
       rs.exception(rule, s.key, reason)
